@@ -1,5 +1,5 @@
 """C07  Field elements always stay canonical; equality is value equality (and every later operation terminates)."""
-from .. import gen, rm
+from .. import gen, mon, rm
 from ..mon import f2hex, hex_f2
 from ..rm import q, r, R, h32, f2add, f2sub, f2mul, f2neg
 
@@ -346,8 +346,7 @@ def run(ctx, spec):
             return
         head, _, payload = an.partition(' ')
         if m[0] == 's':
-            if base == 'raw' and an.startswith('bad unknown op') and getattr(ctx, 'hooks', 'lines') == 'none':
-                ctx.count('hook-unavailable')
+            if base == 'raw' and mon.hook_unavailable(ctx, an):
                 continue
             if an == m[1]:
                 if base == 'eq':
